@@ -250,7 +250,7 @@ def dag_pipeline():
     return out
 
 
-def generate() -> str:
+def core_section() -> list[str]:
     prio = priority_table()
     sf = sorter_facts()
     orders, firstresult = hook_orders()
@@ -262,9 +262,6 @@ def generate() -> str:
         return lean_list(xs, lean_str)
 
     L = []
-    L.append("/-! GENERATED by harness/extract.py from /repo's working tree — do not edit. -/")
-    L.append("namespace Pytask.Generated")
-    L.append("")
     L.append("/-- `numeric_mapping` in `_extract_priorities_from_tasks`: (try_first, try_last) ↦ priority. -/")
     L.append("def priorityTable : List ((Bool × Bool) × Int) := "
              + lean_list(prio, lambda r: f"(({lean_bool(r[0][0])}, {lean_bool(r[0][1])}), ({r[1]} : Int))"))
@@ -291,11 +288,73 @@ def generate() -> str:
     L.append(f"def unconfigureAfterLadder : Bool := {lean_bool(unconf)}")
     L.append(f"def dagPipeline : List String := {strs(pipeline)}")
     L.append("")
-    # further sections are appended by the per-model extractors
-    for extra in EXTRA_SECTIONS:
-        L.extend(extra())
+    return L
+
+
+ALL_PROPS = [f"C{i:02d}" for i in range(1, 21)]
+# which properties consume which section of Generated.lean (a failing section only breaks the tie of these)
+SECTION_PROPS = {
+    "core": ["C01", "C02", "C03", "C04", "C05", "C06", "C08", "C09", "C10", "C17", "C18", "C19"],
+    "extract_pytree": ["C07"], "extract_prov": ["C18"], "extract_hash": ["C12"], "extract_collect": ["C13"],
+    "buildtop_section": ["C08"], "extract_buildtop": ["C08"], "extract_clean": ["C11"], "extract_catalog": ["C20"],
+    "extract_capture": ["C14", "C15"], "extract_expr": ["C16"],
+}
+
+
+def section_name(fn) -> str:
+    mod = getattr(fn, "__module__", "") or ""
+    if mod.startswith("extract_"):
+        return mod
+    return fn.__name__.strip("_")
+
+
+def props_of(name: str) -> list[str]:
+    return SECTION_PROPS.get(name, ALL_PROPS)
+
+
+def _old_section(name: str) -> list[str] | None:
+    """Text of section `name` from the previous Generated.lean (working copy, else the committed one)."""
+    import re
+    import subprocess
+    texts = []
+    if OUT.exists():
+        texts.append(OUT.read_text())
+    try:
+        r = subprocess.run(["git", "-C", str(OUT.parent.parent.parent), "show", "HEAD:lean/PytaskModel/Generated.lean"],
+                           capture_output=True, text=True)
+        if r.returncode == 0:
+            texts.append(r.stdout)
+    except OSError:
+        pass
+    for t in texts:
+        m = re.search(rf"^-- «SECTION {re.escape(name)}»\n(.*?)^-- «END {re.escape(name)}»$", t, flags=re.S | re.M)
+        if m:
+            return m.group(1).rstrip("\n").split("\n")
+    return None
+
+
+def generate_with_status() -> tuple[str, dict]:
+    """Every section is generated independently; a section whose extractor fails keeps its previous text (so that the
+    other properties' models still build) and is reported in the status, which breaks the tie of its consumers only."""
+    failed: dict[str, str] = {}
+    L = ["/-! GENERATED by harness/extract.py from /repo's working tree — do not edit. -/", "namespace Pytask.Generated", ""]
+    for name, fn in [("core", core_section)] + [(section_name(f), f) for f in EXTRA_SECTIONS]:
+        try:
+            lines = list(fn())
+        except Exception as e:  # noqa: BLE001  (fail-closed: any error of an extractor = "the tie no longer checks")
+            failed[name] = f"{type(e).__name__}: {e}"
+            lines = _old_section(name)
+            if lines is None:
+                raise ExtractError(f"section {name} failed ({failed[name]}) and no previous text is available") from None
+        L.append(f"-- «SECTION {name}»")
+        L.extend(lines)
+        L.append(f"-- «END {name}»")
     L.append("end Pytask.Generated")
-    return "\n".join(L) + "\n"
+    return "\n".join(L) + "\n", failed
+
+
+def generate() -> str:
+    return generate_with_status()[0]
 
 
 EXTRA_SECTIONS: list = []
@@ -315,13 +374,27 @@ def _buildtop_section():
 EXTRA_SECTIONS.append(_buildtop_section)
 
 
+STATUS = OUT.parent.parent / ".lake" / "extract_status.json"
+from extract_catalog import section as catalog_section  # M9b / C20
+EXTRA_SECTIONS.append(catalog_section)
+from extract_expr import expr_section  # noqa: E402  (C16)
+EXTRA_SECTIONS.append(expr_section)
+from extract_crash import crash_facts; EXTRA_SECTIONS.append(crash_facts)  # C05 (EngineCrash.lean)
+import extract_clean; EXTRA_SECTIONS.append(extract_clean.section)  # noqa: E402,E702  (M8, C11)
+
+
 def main(write: bool = True) -> int:
+    import json
     try:
-        txt = generate()
+        txt, failed = generate_with_status()
     except ExtractError as e:
         print(f"EXTRACT-FAIL: {e}")
         return 3
+    for name, why in failed.items():
+        print(f"EXTRACT-FAIL[{name}] (affects {','.join(props_of(name))}): {why}")
     if write:
+        STATUS.parent.mkdir(parents=True, exist_ok=True)
+        STATUS.write_text(json.dumps({"failed": failed, "affects": {n: props_of(n) for n in failed}}))
         if not OUT.exists() or OUT.read_text() != txt:
             OUT.write_text(txt)
             print(f"Generated.lean rewritten ({len(txt)} bytes)")
